@@ -581,8 +581,10 @@ function getArgumentValueChunk(argumentValue: ArgumentValue): string {
       return 'v_' + argumentValue.name;
     }
     case 'String': {
-      // replace all non-word characters (alphanumeric & underscore) with underscores
-      return 's_' + argumentValue.value.replaceAll(/\W/g, '_');
+      // replace all non-word characters (alphanumeric & underscore) with underscores.
+      // The u flag makes this one underscore per code point (not per UTF-16 code unit),
+      // which is what the compiler does (see to_alias_str_chunk).
+      return 's_' + argumentValue.value.replaceAll(/\W/gu, '_');
     }
     case 'Enum': {
       return 'e_' + argumentValue.value;
